@@ -24,7 +24,7 @@ from typing import Dict, List, Set, Tuple
 
 from .report import Ctx
 from .srcmodel import AnalysisError, call_leaf, call_name, calls_in, const_str, contains, dotted, func_params, src, walk_local
-from .util import root_name
+from .util import core_stmts, root_name
 
 CHECKERS = {"_check_value_key", "_check_type", "_check_type_", "_load_config", "check_type"}
 FIND = {"_find_action", "_find_action_and_subcommand", "_find_parent_action", "_find_parent_action_and_subcommand", "_is_branch_key"}
@@ -156,7 +156,7 @@ def run(ctx: Ctx) -> int:
         for nm, own in sources:
             if isinstance(own, ast.For):
                 # re-assignment `key = del_clash_mark(key)` as first statement sanitises
-                first = own.body[0] if own.body else None
+                first = core_stmts(own.body)[0] if core_stmts(own.body) else None
                 if isinstance(first, ast.Assign) and isinstance(first.targets[0], ast.Name) and first.targets[0].id == nm and isinstance(first.value, ast.Call) and call_leaf(first.value) == "del_clash_mark":
                     n_fix += 1
                     continue
